@@ -94,6 +94,27 @@ Proof.
 Qed.
 Print Assumptions C18_closed_forms_exact.
 
+(** In the closed-form cases the returned mean lies in the support of the tilted distribution and the
+    variance is positive: a free parent above a child at time zero, a twin block, a mutation between
+    two fixed ends, a mutation between a child at time zero and its parent's mean. *)
+Theorem C18_mean_in_support_closed : forall (lgam : R -> R) (eg : R) (H : HypFns RNum),
+  let F := RF lgam eg in
+  (forall a_i b_i y mu l m v, 0 < a_i + y -> 0 < mu + b_i ->
+     rootward_moments RNum F H 0 a_i b_i y mu = Ok (Val (l, m, v)) -> 0 < m /\ 0 < v) /\
+  (forall a b y mu, 0 < a + y -> 0 < b + 2 * mu ->
+     0 < snd (fst (twin_moments RNum F H a b y mu)) /\ 0 < snd (twin_moments RNum F H a b y mu)) /\
+  (forall t_i t_j, t_j < t_i ->
+     t_j < fst (mutation_edge_moments RNum F H t_i t_j) < t_i /\ 0 < snd (mutation_edge_moments RNum F H t_i t_j)) /\
+  (forall a_i b_i y mu m v, 0 < a_i + y -> 0 < mu + b_i ->
+     mutation_rootward_moments RNum F H 0 a_i b_i y mu = Ok (Val (m, v)) ->
+     0 < m < (a_i + y) / (mu + b_i) /\ 0 < v).
+Proof.
+  exact (fun lgam eg H =>
+    conj (support_rootward0 lgam eg H) (conj (support_twin lgam eg H)
+    (conj (support_edge lgam eg H) (support_mutation_rootward0 lgam eg H)))).
+Qed.
+Print Assumptions C18_mean_in_support_closed.
+
 (** The mutation variants are the corresponding mixtures: a mutation is uniform on its branch, so
     its first two moments are E[(t_i + t_j)/2] and E[(t_i^2 + t_i t_j + t_j^2)/3] over the node
     update; whenever the node mean lies in the support so does the mutation mean, and its variance
